@@ -379,8 +379,11 @@ pub fn run_real(c: &Case) -> Option<Outcome> {
     std::fs::write(dir.join("stdin"), b"").ok()?;
     let exe = std::env::current_exe().ok()?;
     let script = c.lines.join("\n") + "\n";
-    let mut child = Command::new(exe)
-        .arg("real-shell")
+    // (a process group of its own, so that whatever the shell has forked can be
+    // removed with it - after a time-out, or when this check ends early)
+    use std::os::unix::process::CommandExt as _;
+    let mut cmd = Command::new(exe);
+    cmd.arg("real-shell")
         .arg("-c")
         .arg(&script)
         .current_dir(&work)
@@ -389,8 +392,15 @@ pub fn run_real(c: &Case) -> Option<Outcome> {
         .stdin(std::fs::File::open(dir.join("stdin")).ok()?)
         .stdout(Stdio::piped())
         .stderr(Stdio::piped())
-        .spawn()
-        .ok()?;
+        .process_group(0);
+    unsafe {
+        cmd.pre_exec(|| {
+            libc::prctl(libc::PR_SET_PDEATHSIG, libc::SIGKILL);
+            Ok(())
+        });
+    }
+    let mut child = cmd.spawn().ok()?;
+    let group = child.id() as i32;
     let mut so = child.stdout.take()?;
     let mut se = child.stderr.take()?;
     let t_out = std::thread::spawn(move || {
@@ -409,6 +419,7 @@ pub fn run_real(c: &Case) -> Option<Outcome> {
             Ok(Some(s)) => break Some(s),
             Ok(None) => {
                 if start.elapsed().as_secs() > 10 {
+                    unsafe { libc::kill(-group, libc::SIGKILL) };
                     child.kill().ok();
                     child.wait().ok();
                     break None;
@@ -418,6 +429,8 @@ pub fn run_real(c: &Case) -> Option<Outcome> {
             Err(_) => break None,
         }
     };
+    // stragglers (they would also keep the pipes above open)
+    unsafe { libc::kill(-group, libc::SIGKILL) };
     let stdout = t_out.join().ok()?;
     let stderr = t_err.join().ok()?;
     let mut tree = Tree::new();
